@@ -42,7 +42,7 @@ CLAIMED = {
          'Lean 4 proofs on a hand-written model + differential correspondence over constructor forms and pose triples',
          'DESIGN.md section 5 C04'),
  'C12': ('Machine-checked theorems (Lean 4, reals) about an executable model of Screw/Wrench: frame change is Ad(inv(B)A) on twists and Ad(inv(A)B)^T on wrenches, records the new frame, '
-         'A->B->A = id, A->B->C = A->C, the pairing wrench.twist is frame-independent, p x f moment and zero moment at the application point, mixed-frame sums, and the vector-space laws; '
+         'A->B->A = id, A->B->C = A->C, the pairing wrench.twist is frame-independent, p x f moment and zero moment at the application point, mixed-frame sums, (a+b)-b = a and (a-b)+b = a for operands in any two frames (no side condition: both operators re-express b identically), the array-operand laws, and the scalar vector-space laws; '
          'all under the explicit side condition RelAngleOK (relative rotation 0 or >= 1e-6) that the proof forces - the excluded band is a known finding replayed on the implementation. '
          'Model tied by a differential run over operand kinds x frame triples; the laws are also evaluated directly on the real objects.',
          'Trusted: Lean kernel, Mathlib, harness generators; frames assumed coherent tm objects (C03); rounding outside.',
